@@ -149,13 +149,86 @@ class Run:
             print(f"CHECKER-ERROR: duplicate obligation names {dup[:5]}")
             return 3
         jobs = jobs or int(os.environ.get("VERIF_JOBS", "16"))
-        if jobs > 1 and len(obs) > 1:
-            ctx = mp.get_context("fork")
-            with ctx.Pool(min(jobs, len(obs))) as pool:
-                results = pool.map(_work, range(len(obs)), chunksize=1)
-        else:
-            results = [_work(i) for i in range(len(obs))]
+        results = self._run_pool(obs, jobs)
         return self._finish(results, time.time() - t0)
+
+    def _run_pool(self, obs, jobs):
+        """Forked worker processes, at most `jobs` at a time; each takes a batch of obligations and reports them one by
+        one.  A worker that exceeds the wall budget of its current obligation (e.g. inside a solver call that ignores its
+        timeout) is killed: that obligation is reported undecided and the rest of its batch is re-queued."""
+        ctx = mp.get_context("fork")
+        results = [None] * len(obs)
+        n = len(obs)
+        bsize = max(1, min(16, n // (jobs * 6) if jobs else 1))
+        queue = [list(range(i, min(i + bsize, n))) for i in range(0, n, bsize)]
+        running = {}   # wid -> [proc, conn, batch, pos, t_start_of_current]
+        wid = 0
+
+        def dead(i, why, ts):
+            return {"status": "undecided", "backend": "", "detail": why, "vcs": 1, "seconds": time.time() - ts, "sample": None,
+                    "replay": None, "reproduced": None, "bound": None, "name": obs[i][0], "kind": obs[i][2],
+                    "wall": time.time() - ts}
+
+        def child(batch, conn):
+            for i in batch:
+                try:
+                    conn.send((i, _work(i)))
+                except Exception as ex:  # noqa: BLE001
+                    conn.send((i, dead(i, f"result not transferable: {ex}", time.time())))
+            conn.close()
+        while queue or running:
+            while queue and len(running) < jobs:
+                batch = queue.pop(0)
+                pc, cc = ctx.Pipe(duplex=False)
+                p = ctx.Process(target=child, args=(batch, cc), daemon=True)
+                p.start()
+                cc.close()
+                running[wid] = [p, pc, batch, 0, time.time()]
+                wid += 1
+            progressed = False
+            for k in list(running):
+                p, pc, batch, pos, ts = running[k]
+                try:
+                    while pc.poll(0):
+                        i, r = pc.recv()
+                        results[i] = r
+                        pos += 1
+                        ts = time.time()
+                        progressed = True
+                except EOFError:
+                    pass
+                running[k][3], running[k][4] = pos, ts
+                if pos >= len(batch):
+                    p.join(timeout=2)
+                    pc.close()
+                    del running[k]
+                    progressed = True
+                    continue
+                cur = batch[pos]
+                if not p.is_alive():
+                    results[cur] = dead(cur, f"worker died (exit code {p.exitcode})", ts)
+                    rest = batch[pos + 1:]
+                    if rest:
+                        queue.insert(0, rest)
+                    pc.close()
+                    del running[k]
+                    progressed = True
+                elif time.time() - ts > obs[cur][3] + 10:
+                    p.kill()
+                    p.join(timeout=2)
+                    results[cur] = dead(cur, f"killed: wall-clock budget {obs[cur][3]}s exhausted (a solver call did not return)", ts)
+                    rest = batch[pos + 1:]
+                    if rest:
+                        queue.insert(0, rest)
+                    pc.close()
+                    del running[k]
+                    progressed = True
+            if not progressed:
+                time.sleep(0.005)
+        for i in range(n):
+            if results[i] is None:
+                results[i] = dead(i, "no result received", time.time())
+        return results
 
     def _finish(self, results, wall):
         pid = self.pid
